@@ -37,6 +37,7 @@ type Profile struct {
 	ReusePct     int // percent chance that a sub-expression is reused verbatim
 	WriteOtherFact int // percent chance that assignment targets avoid fact G (C13)
 	TemplatePct    int // percent chance that a directed template is added
+	PFieldMethod   int // percent chance that a method call is one whose result depends on a field (Level/Label)
 }
 
 // DefaultProfile is the general-purpose Sim E profile.
@@ -48,7 +49,7 @@ func DefaultProfile() Profile {
 		MaxCycles: []uint64{0, 1, 2, 3, 5, 8, 12},
 		Listeners: []int{1, 1, 1, 2, 3, 0},
 		Sources:   []string{"direct", "direct", "grb", "reclone"},
-		RetErrPct: 20, Mode: "execute", HotBias: 65, ReusePct: 30, TemplatePct: 40,
+		RetErrPct: 20, Mode: "execute", HotBias: 65, ReusePct: 30, TemplatePct: 40, PFieldMethod: 25,
 	}
 }
 
@@ -384,6 +385,9 @@ func (g *G) call(t grl.Type, depth int) *grl.Expr {
 	}
 	switch t {
 	case grl.TInt:
+		if g.R.Chance(g.Prof.PFieldMethod, 100) {
+			return &grl.Expr{K: "call", Path: recv, Fn: "Level"}
+		}
 		if g.R.Chance(1, 3) {
 			n := g.R.Intn(4)
 			args := make([]*grl.Expr, n)
@@ -396,6 +400,9 @@ func (g *G) call(t grl.Type, depth int) *grl.Expr {
 	case grl.TFloat:
 		return &grl.Expr{K: "call", Path: recv, Fn: "Scale", Args: []*grl.Expr{g.Expr(grl.TFloat, d, true)}}
 	case grl.TString:
+		if g.R.Chance(g.Prof.PFieldMethod, 100) {
+			return &grl.Expr{K: "call", Path: recv, Fn: "Label"}
+		}
 		if g.R.Chance(1, 2) {
 			return &grl.Expr{K: "call", Path: recv, Fn: "Tag"}
 		}
@@ -674,9 +681,13 @@ func Scenario(property string, seed uint64, prof Profile) *core.Scenario {
 		Source:    prof.Sources[r.Intn(len(prof.Sources))],
 		Mode:      prof.Mode,
 	}
+	if len(sc.Program.Rules) > 1 && r.Chance(30, 100) {
+		sc.Knobs.SplitAt = r.Range(1, len(sc.Program.Rules)-1)
+	}
 	if r.Chance(prof.PRemoved, 100) && len(sc.Program.Rules) > 1 {
 		sc.Removed = []string{sc.Program.Rules[r.Intn(len(sc.Program.Rules))].Name}
 	}
+	AnnounceFieldMethods(sc.Program, r)
 	sc.Schedule = g.Schedule(int(sc.Knobs.MaxCycle)+2, len(sc.Program.Rules), r.Intn(4))
 	sc.LatSeed = r.Uint64()
 	sc.GRL = grl.PrintProgram(sc.Program)
@@ -687,4 +698,84 @@ func Scenario(property string, seed uint64, prof Profile) *core.Scenario {
 // third of the time (when one exists for the property), free-form otherwise.
 func ScenarioFor(property string, seed uint64, prof Profile) *core.Scenario {
 	return Scenario(property, seed, prof)
+}
+
+
+// AnnounceFieldMethods enforces the documented protocol for methods whose result depends on a
+// field: wherever the rule set calls X.Level() / X.Label(), every action that changes X.I / X.S
+// (by assignment or through a mutator) is followed, in the same action list, by Forget/Changed
+// naming the call text. Without the announcement the engine cannot know (Function_en.md).
+func AnnounceFieldMethods(p *grl.Program, r *core.Rand) {
+	used := map[string]bool{} // "F.Level()"
+	var walk func(e *grl.Expr)
+	walk = func(e *grl.Expr) {
+		if e == nil {
+			return
+		}
+		if e.K == "call" && (e.Fn == "Level" || e.Fn == "Label") && len(e.Path.Steps) == 0 {
+			used[e.Path.Root+"."+e.Fn+"()"] = true
+		}
+		if e.Path != nil {
+			for _, s := range e.Path.Steps {
+				walk(s.Sel)
+			}
+		}
+		walk(e.L)
+		walk(e.R)
+		for _, a := range e.Args {
+			walk(a)
+		}
+	}
+	for _, rl := range p.Rules {
+		walk(rl.When)
+		for _, a := range rl.Then {
+			walk(a.E)
+			if a.Path != nil {
+				for _, s := range a.Path.Steps {
+					walk(s.Sel)
+				}
+			}
+		}
+	}
+	if len(used) == 0 {
+		return
+	}
+	for _, rl := range p.Rules {
+		var out []*grl.Action
+		for i, a := range rl.Then {
+			out = append(out, a)
+			var fact, field string
+			switch a.K {
+			case "assign":
+				if len(a.Path.Steps) == 1 && a.Path.Steps[0].Sel == nil {
+					fact, field = a.Path.Root, a.Path.Steps[0].Field
+				}
+			case "mut":
+				fact = a.E.Path.Root
+				switch a.E.Fn {
+				case "SetI", "Bump":
+					field = "I"
+				case "SetS":
+					field = "S"
+				}
+			}
+			call := ""
+			if field == "I" {
+				call = fact + ".Level()"
+			} else if field == "S" {
+				call = fact + ".Label()"
+			}
+			if call != "" && used[call] {
+				if i+1 < len(rl.Then) && (rl.Then[i+1].K == "forget" || rl.Then[i+1].K == "changed") && rl.Then[i+1].Text == call {
+					continue // already announced
+				}
+				k := "forget"
+				if r != nil && r.Chance(1, 2) {
+					k = "changed"
+				}
+				out = append(out, &grl.Action{K: k, Text: call})
+			}
+		}
+		rl.Then = out
+	}
 }
